@@ -1,5 +1,6 @@
 import IOptModel.Arith
 import IOptModel.Evolvent
+import IOptModel.EvObj
 import IOptModel.SearchData
 import IOptModel.Method
 import IOptModel.Process
